@@ -37,6 +37,7 @@ class Ctx:
         self.nobs = 0
         from reactivex.testing import TestScheduler
         self.rnd = random.Random(seed)
+        self.rnd2 = random.Random(seed * 31 + 7)
         self.s = TestScheduler()
         self.hot = hot
         self.events: List[Tuple[float, int, Dict[str, Any]]] = []   # (virtual time, seq, event)
@@ -120,6 +121,16 @@ class Ctx:
 
     def trigger(self):
         return self.source("num", role="trigger", hot=False, maxlen=2, span=50, term=self.rnd.choice(["C", "U", "U"]))
+
+    def trigger_long(self):
+        """a duration of another kind than trigger(): long, one late element, never completing on its own - drawn from a
+        separate random stream, so that which callback asked for it matters (two duration mappers swapped show)"""
+        keep = self.rnd
+        self.rnd = self.rnd2
+        try:
+            return self.source("num", role="trigger", hot=False, maxlen=1, span=150, term="U")
+        finally:
+            self.rnd = keep
 
     def coin(self) -> bool:
         return self.rnd.random() < 0.5
@@ -292,8 +303,8 @@ def _install():
     _reg("group_by_until_self", "any", _gbu_self, "obs_out", real="group_by_until")
     _reg("partition", "any", lambda c: A(pred(c)), "multi")
     _reg("partition_indexed", "any", lambda c: A(predi(c)), "multi")
-    _reg("join", "any", lambda c: A(c.source("num", "other"), c.cb(c.memo(lambda v: c.trigger())), c.cb(c.memo(lambda v: c.trigger()))))
-    _reg("group_join", "any", lambda c: A(c.source("num", "other"), c.cb(c.memo(lambda v: c.trigger())), c.cb(c.memo(lambda v: c.trigger()))), "obs_out")
+    _reg("join", "any", lambda c: A(c.source("num", "other"), c.cb(c.memo(lambda v: c.trigger())), c.cb(c.memo(lambda v: c.trigger_long()))))
+    _reg("group_join", "any", lambda c: A(c.source("num", "other"), c.cb(c.memo(lambda v: c.trigger())), c.cb(c.memo(lambda v: c.trigger_long()))), "obs_out")
     # ---- side effects / resources
     _reg("do", "any", lambda c: A(__import__("reactivex").Observer(c.cb(lambda v: None), c.cb(lambda e: None, obs=True), c.cb(lambda: None, obs=True))))
     _reg("do_action", "any", lambda c: A(c.cb(lambda v: None), c.cb(lambda e: None, obs=True), c.cb(lambda: None, obs=True)))
